@@ -84,6 +84,7 @@ type Eval struct {
 	Steps int
 	fresh     int // next fresh variable for unknown library outcomes
 	depth        int
+	globals      map[*ssa.Global]*Val // read-only package-level tables (globals.go)
 	outerCond    int   // condition under which the current invocation runs
 	nextBinds    []Val // bindings of the closure about to be entered
 }
@@ -248,6 +249,11 @@ func (e *Eval) call(fn *ssa.Function, args []Val) []Val {
 		}
 		if f, ok := v.(*ssa.Function); ok {
 			return Val{Kind: KOpaque, Name: "func:" + f.String(), Fn: f}
+		}
+		if g, ok := v.(*ssa.Global); ok {
+			if gv, isTab := e.globalValue(g); isTab {
+				return gv
+			}
 		}
 		if g, ok := v.(*ssa.Global); ok && (e.ErrorsAsBits || (g.Pkg != nil && g.Pkg.Pkg.Path() == "encoding/binary")) {
 			return Val{Kind: KOpaque, Name: "global:" + g.Name()}
@@ -414,6 +420,9 @@ func (e *Eval) call(fn *ssa.Function, args []Val) []Val {
 					}
 					e.condStoreArr(a.cell, x.Elems, reach[b])
 				case KElemPtr:
+					if a.idx < 0 {
+						unsupported("store through a symbolic index in %s", fn.Name())
+					}
 					if a.cell.items != nil {
 						if !loopy && reach[b] != 1 {
 							// path mode is on one path; merging would need a memory merge
@@ -491,6 +500,14 @@ func (e *Eval) call(fn *ssa.Function, args []Val) []Val {
 			case *ssa.IndexAddr:
 				a := get(v.X)
 				i, ok := constIdx(v.Index)
+				if !ok && a.Kind == KArrPtr && a.cell.items == nil {
+					// a symbolic index into an array of bytes: only loads through it
+					// are supported (a table lookup)
+					if ix := get(v.Index); ix.Kind == KBits {
+						vals[v] = Val{Kind: KElemPtr, cell: a.cell, idx: -1, Bits: ix.Bits}
+						continue
+					}
+				}
 				if !ok {
 					unsupported("non-constant index %s in %s", v, fn.Name())
 				}
@@ -516,6 +533,13 @@ func (e *Eval) call(fn *ssa.Function, args []Val) []Val {
 			case *ssa.Index:
 				a := get(v.X)
 				i, ok := constIdx(v.Index)
+				if tb, isTab := e.tableOf(a); isTab && ok && a.Kind == KStr {
+					if i < 0 || i >= len(tb) {
+						unsupported("index out of range in %s", fn.Name())
+					}
+					vals[v] = Val{Kind: KBits, Bits: tb[i]}
+					continue
+				}
 				if tb, isTab := e.tableOf(a); isTab && !ok {
 					if ix := get(v.Index); ix.Kind == KBits {
 						r, inRange := e.tableByte(tb, ix.Bits)
@@ -543,6 +567,12 @@ func (e *Eval) call(fn *ssa.Function, args []Val) []Val {
 						unsupported("load of an unset array element in %s", fn.Name())
 					}
 					vals[v] = x.cell.items[x.idx]
+				case v.Op == token.MUL && x.Kind == KElemPtr && x.idx < 0:
+					r, inRange := e.tableByte(x.cell.arr, x.Bits)
+					if !inRange {
+						unsupported("index of %s may be out of range in %s", v, fn.Name())
+					}
+					vals[v] = Val{Kind: KBits, Bits: r}
 				case v.Op == token.MUL && x.Kind == KElemPtr:
 					vals[v] = Val{Kind: KBits, Bits: x.cell.arr[x.idx]}
 				case v.Op == token.MUL && x.Kind == KArrPtr:
